@@ -210,7 +210,9 @@ func buildTree(nodes []node, rec *recorder) *command.Manager {
 	return &mgr
 }
 
-var litNames = []string{"a", "b", "run", "msg", "server", "x1", "go", "tp"}
+// mixed-case labels matter: command.Manager.Has lower-cases its argument while literals are registered and
+// matched case-sensitively, so any label-based shortcut must agree with the dispatcher on "gList" vs "glist"
+var litNames = []string{"a", "b", "run", "msg", "server", "x1", "go", "tp", "gList", "Hub", "sendTo"}
 
 func genTree(r *hx.Rng) []node {
 	var nodes []node
@@ -318,6 +320,14 @@ func genLine(r *hx.Rng, nodes []node) string {
 		}
 	case 9:
 		return "/" + strings.Join(toks, sep)
+	case 10:
+		if len(toks) > 0 { // same label, different case: a different (usually unknown) command
+			if toks[0] == strings.ToLower(toks[0]) {
+				toks[0] = strings.ToUpper(toks[0][:1]) + toks[0][1:]
+			} else {
+				toks[0] = strings.ToLower(toks[0])
+			}
+		}
 	}
 	return strings.Join(toks, sep)
 }
